@@ -202,6 +202,20 @@ def work(item):
                 sample = dict(case=case.name, op='format', prev=prev, wipe=wipe,
                               result=repr(f.result),
                               verdict='ok' if not fails else fails[0][0])
+        # format() and a following write on the SAME tag object
+        for prev in ('empty', 'long'):
+            for wipe in (None, WIPE):
+                for frac in ('0', '1', 'half', 'cap'):
+                    f = tc.check_format_write(case, prev, wipe, frac)
+                    key = (case.name, 'format-write', prev, wipe, frac)
+                    fails = f.items[PROP]
+                    if not fails:
+                        run.ok(key=key)
+                    for sig, detail in fails:
+                        run.fail(sig, detail, key=key)
+                    run.count('format-write:' + case.kind)
+                    for o in f.obs:
+                        run.count('%s:%s' % (case.kind, o.split(':')[0]))
     run.count('cpu_ms', int((time.process_time() - t0) * 1000))
     if sample:
         run.sample(sample)
@@ -231,7 +245,9 @@ def main(tier='quick', seed=0, part=None):
                 "layouts and lengths as C01 (props/tagcases.py, "
                 "coverage.bounds.grid); format cases: every layout whose tag "
                 "class implements format x previous {empty, short, long} x "
-                "{no wipe, wipe}; every case executes the real code and is "
+                "{no wipe, wipe}, and format() followed by a write of 0 / 1 / "
+                "half / full capacity on the same tag object (judged against "
+                "the layout the tag has after the format); every case executes the real code and is "
                 "distinct.  Part 'retry': one case = (layout, previous "
                 "content, pattern, length, faulted position j of the command "
                 "sequence of the fault-free write, error kind timeout/"
@@ -301,7 +317,9 @@ def replay(doc):
         if not sigs:
             print('no violation for this case')
         return c01._verdict(doc, sigs)
-    if d['op'] == 'write':
+    if d['op'] == 'format-write':
+        f = tc.check_format_write(case, d['prev'], d['wipe'], d['frac'])
+    elif d['op'] == 'write':
         f = tc.check_write(case, d['prev'], d['pattern'], d['n'])
     else:
         f = tc.check_format(case, d['prev'], d['wipe'])
